@@ -552,25 +552,34 @@ def check_search(c, L, name):
             env[patom] = F(prior)
         elif sent is not None:
             env[patom] = F(sent)
+        else:
+            from ..kutil import NONE_VALUE
+            env[patom] = NONE_VALUE          # "nothing found yet" carried as None
         try:
             taken = [(g, v) for g, v in paths if _all_true(g, env)]
             if taken:
                 v = taken[0][1]
-                res = None if v == Rat.atom(NONE) else evaluate(v, env)
+                res = None if v == Rat.atom(NONE) or (prior is None and sent is None and v == phi) else evaluate(v, env)
                 left = True
             else:
                 left = False
                 res = None if (prior is None and post == phi) else evaluate(post, env)
             if sent is not None and res == sent:
                 res = None
+            if sent is None and prior is None and res is not None:
+                from ..kutil import NONE_VALUE
+                if res == NONE_VALUE:
+                    res = None
         except CannotEvaluate as e:
             rep.add('R2', f, entry, 'search step, ' + title, line, None, 'not evaluable: %s' % e)
             continue
+        # once a label has been found the search may stop anywhere - the first labelled match wins - as long as the found label
+        # is what it leaves with (`while j < n and found is None`: the exit is taken at the head of the next step)
         if not smatch:
-            ok = not left and res == prior
+            ok = (not left or prior is not None) and res == prior
             why = 'a neighbour that does not match the cell takes no part: its label must be ignored'
         elif lab == 0:
-            ok = not left and res == prior
+            ok = (not left or prior is not None) and res == prior
             why = 'an unlabelled (0) neighbour must be passed over: stopping or taking its 0 leaves the cell unlabelled / ' \
                   'misses labelled neighbours further on'
         else:
